@@ -27,83 +27,16 @@
 (*                                                                               *)
 (* The operators StratInit, StratStep, Accept, StatusOf, LoopContinues are       *)
 (* reused by TraceOptim with the logged fields bound to their arguments.         *)
-EXTENDS Tol, TLC
+EXTENDS MinimizeOps
 
 CONSTANTS
   MaxIter,      \* max_iter of every run (the property's bound)
   Runs,         \* number of consecutive runs (>= 2 shows persistence of the strategy object)
   Levels,       \* cost levels 0..Levels (level 0: zero residual); equal level = equal up to rounding
   Kinds,        \* subset of {"ceres", "disney"}
-  Variant,      \* "coded" or a model mutant: "accept_always", "rho_gt_minus1", "assign_before_test",
-                \* "loop_le", "status_default_ptol", "reduce_not_reset"
+  \* (Variant, declared in MinimizeOps: "coded" or a model mutant: "accept_always", "rho_gt_minus1",
+  \*  "assign_before_test", "loop_le", "status_default_ptol", "reduce_not_reset")
   AssumeA1, AssumeA2, AssumeA3   \* BOOLEAN: environment assumptions in force
-
----------------------------------------------------------------------------
-\* extended reals (IEEE doubles seen as rationals plus NaN and the infinities)
-XNaN == [k |-> "nan"]
-XPInf == [k |-> "pinf"]
-XNInf == [k |-> "ninf"]
-XFin(v) == [k |-> "fin", v |-> v]
-\* C++ comparison semantics: every comparison with NaN is false
-XGt(x, c) == IF x.k = "fin" THEN RLt(c, x.v) ELSE x.k = "pinf"
-XLt(x, c) == IF x.k = "fin" THEN RLt(x.v, c) ELSE x.k = "ninf"
-XLe(x, c) == IF x.k = "fin" THEN RLeq(x.v, c) ELSE x.k = "ninf"
-XIsZero(x) == x.k = "fin" /\ RSign(x.v) = 0
-XAbsLt(x, c) == x.k = "fin" /\ RLt(RAbs(x.v), c)
-
-\* the double nearest to 0.001 (the literal 1e-3 of tr_strategy.hpp): 0x10624DD2F1A9FC * 2^-62
-C1em3 == RFromDouble(<<1, 34359738, 49392124, -62>>)
-\* the double nearest to 1/3 (the literal 1. / 3) differs from 1/3 by 2e-17 relative: immaterial at 1e-12
-OneThird == RFrac(1, 3)
-RCube(x) == RMul(x, RMul(x, x))
-
----------------------------------------------------------------------------
-\* trust-region strategies as coded.  State: [kind, delta, reduce] (reduce unused by Disney)
-StratInit(kind) ==
-  IF kind = "ceres" THEN [kind |-> "ceres", delta |-> RFromInt(10000), reduce |-> R2]
-  ELSE [kind |-> "disney", delta |-> RFromInt(1000), reduce |-> R2]
-
-\* Ceres: divisor of the radius after a successful step:  max(1/3, 1 - (2 rho - 1)^3)
-CeresDen(rho) ==
-  IF rho.k = "pinf" THEN OneThird
-  ELSE RMax(OneThird, RSub(R1, RCube(RSub(RMul(R2, rho.v), R1))))
-
-RhoThreshold(kind) ==
-  IF Variant = "rho_gt_minus1" THEN RFromInt(-1)
-  ELSE IF kind = "ceres" THEN C1em3 ELSE R0
-
-\* step_and_update(rho): returns take_step and the new state
-StratStep(s, rho) ==
-  IF s.kind = "ceres" THEN
-    IF XGt(rho, RhoThreshold("ceres"))
-    THEN [take |-> TRUE,
-          s |-> [kind |-> "ceres", delta |-> RDiv(s.delta, CeresDen(rho)),
-                 reduce |-> IF Variant = "reduce_not_reset" THEN s.reduce ELSE R2]]
-    ELSE [take |-> FALSE,
-          s |-> [kind |-> "ceres", delta |-> RDiv(s.delta, s.reduce), reduce |-> RMul(R2, s.reduce)]]
-  ELSE
-    IF XGt(rho, RhoThreshold("disney"))
-    THEN [take |-> TRUE, s |-> [kind |-> "disney", delta |-> RFromInt(1000), reduce |-> s.reduce]]
-    ELSE [take |-> FALSE, s |-> [kind |-> "disney", delta |-> RDiv(s.delta, RFromInt(10)), reduce |-> s.reduce]]
-
-\* the acceptance rule of optim.hpp:  r_n == 0 || pred_red <= 0 || take_step
-Accept(rnZero, predLe0, take) ==
-  IF Variant = "accept_always" THEN TRUE ELSE rnZero \/ predLe0 \/ take
-
-\* status chosen in an iteration (only looked at after an accepted step): Ftol test first, then Ptol
-StatusOf(accepted, ftest, ptest) ==
-  IF ~accepted THEN "none" ELSE IF ftest THEN "Ftol" ELSE IF ptest THEN "Ptol" ELSE "none"
-
-\* the Ftol test:  |actu_red| < ftol && pred_red < ftol && rho <= 2   (false as soon as one operand is NaN)
-FtolTest(actu, pred, rho, ftol) == XAbsLt(actu, ftol) /\ XLt(pred, ftol) /\ XLe(rho, R2)
-
-\* loop condition  iter < max_iter && !status.has_value()
-LoopContinues(it, maxIter, stat) ==
-  (IF Variant = "loop_le" THEN it <= maxIter ELSE it < maxIter) /\ stat = "none"
-
-\* value returned:  status.value_or(MaxIters)
-ResultOf(stat) ==
-  IF stat /= "none" THEN stat ELSE IF Variant = "status_default_ptol" THEN "Ptol" ELSE "MaxIters"
 
 ---------------------------------------------------------------------------
 \* The state machine below keeps the strategy state in INTEGER EXPONENTS so that TLC explores it quickly:
@@ -154,7 +87,10 @@ AbsStep(a, rho) == AbsStepRegime(a, CeresRegime(rho), XGt(rho, RhoThreshold("dis
 PredClasses == {"neg", "zero", "pos", "nan"}
 \* representatives of rho: below / at / above the Ceres threshold, the three Ceres divisor regimes
 \* (9/8 at 1/4, 1 at 1/2, clamp 1/3 at 1 and beyond), beyond the Ftol limit 2, negative, zero
-PosReps == {XFin(RFrac(1, 2000)), XFin(C1em3), RhoGeneric, XFin(RFrac(1, 4)), XFin(RHalf), XFin(R1), XFin(RFromInt(3))}
+\* (the model mutant rho > -1 would take the two sub-threshold representatives with divisors outside the
+\*  exponent abstraction; it is explored without them)
+SubThreshold == IF Variant = "rho_gt_minus1" THEN {} ELSE {XFin(RFrac(1, 2000)), XFin(C1em3)}
+PosReps == SubThreshold \cup {RhoGeneric, XFin(RFrac(1, 4)), XFin(RHalf), XFin(R1), XFin(RFromInt(3))}
 NegReps == {XFin(RFromInt(-2)), XFin(RFrac(-1, 2))}
 AllReps == PosReps \cup NegReps \cup {XFin(R0), XNaN, XPInf, XNInf}
 
@@ -298,11 +234,24 @@ Monotone == mono
 StratInv ==
   /\ strat.k >= 1 /\ strat.eg >= 0
   /\ strat.kind = "disney" => (strat.e2 >= 0 /\ strat.e3 = 0 /\ strat.eg = 0 /\ strat.k = 1)
+\* Ceres: an unsuccessful step divides the radius by the reduce factor and doubles the factor; every
+\* successful step restarts the factor at 2
+ReduceRestart ==
+  [][(strat.kind = "ceres" /\ pc = "loop" /\ pc' = "loop" /\ strat' /= strat)
+       => ((strat'.k = strat.k + 1 /\ strat'.e2 = strat.e2 + strat.k) \/ strat'.k = 1)]_vars
 Persist ==
   (pc \in {"start", "loop"} /\ iter = 0 /\ run > 1 /\ ~fresh) => strat = exitStrat
 FreshInit ==
   (pc \in {"start", "loop"} /\ iter = 0 /\ fresh) => strat = AbsInit(strat.kind)
 
-\* every run returns
+\* every run returns.  Termination is the temporal statement (checked with the liveness checker on the small
+\* configuration Minimize_live.cfg); Decreases + NotStuck is its safety-style proof by a ranking function, cheap
+\* enough for every configuration: every step strictly decreases Rank and a step is possible until "done".
 Termination == <>(pc = "done")
+RankK == MaxIter + 6
+Rank ==
+  (Runs - run) * RankK +
+  (CASE pc = "start" -> MaxIter + 5 [] pc = "loop" -> MaxIter + 4 - iter [] pc = "exit" -> 1 [] pc = "done" -> 0)
+Decreases == [][Rank' < Rank]_vars
+NotStuck == (pc /= "done") => ENABLED Next
 =============================================================================
